@@ -28,6 +28,7 @@ type checker struct {
 	mu       sync.Mutex
 	reported map[string]int
 	workers  int
+	failures atomic.Int64
 }
 
 // report files a violation once per key and counts repeats.
@@ -37,9 +38,18 @@ func (ck *checker) report(key, what string, replay any) {
 	ck.reported[key] = n + 1
 	ck.mu.Unlock()
 	ck.ctx.Count("violations_by_key:"+key, 1)
+	if strings.HasPrefix(key, "seg") || strings.HasPrefix(key, "count:") {
+		ck.failures.Add(1)
+	}
 	if n == 0 {
 		ck.ctx.Violation(key, what, replay)
 	}
+}
+
+// tooMany: enough refutations were collected; the rest of the workload is skipped
+// (a broken reader makes every run slow, and more of the same adds nothing).
+func (ck *checker) tooMany() bool {
+	return ck.ctx.Violations() >= 25 || ck.failures.Load() >= 60
 }
 
 func abbreviate(cmds [][]string) [][]string {
@@ -430,7 +440,7 @@ func (ck *checker) partA() {
 			defer func() { s.Kill9() }()
 			r := &runner{addr: s.Addr()}
 			for j := range jobc {
-				if ctx.Violations() >= 25 {
+				if ck.tooMany() {
 					aborted.Store(true)
 					continue
 				}
